@@ -971,15 +971,16 @@ def gen_cases(ctx: Ctx, n: int) -> list[dict]:
     # path variant (several selected elements => several collect/flush/result cycles, list-shaped results)
     extra = []
     for c in cases:
-        # (identity constraints and ID/IDREF are checked differently under a path argument: outside the property)
-        if c['family'] == 'T' and not any(f.startswith(('ROOT', 'C08', 'ID ')) for f in c['faults']) and ctx.rng.random() < 0.25:
-            extra.append(dict(c, path=ctx.rng.choice(['p:item', '/p:root/p:item', 'p:head', 'p:sub', 'p:nothing'])))
+        # family N only: under a path argument the identity constraints of the ancestors (family T declares key /
+        # keyref / unique on the root) are evaluated by iter_errors but not by iter_decode — outside this property
+        if c['family'] == 'N' and not any(f.startswith('ROOT') for f in c['faults']) and ctx.rng.random() < 0.8:
+            extra.append(dict(c, path=ctx.rng.choice(['b', 'm', '/doc/m', 'cfg', 'yr', 'nothing'])))
     return cases + extra
 
 
 def kinds_for(case: dict) -> list[str]:
     if case.get('path'):
-        return ['text', 'path', 'lxml']        # prefixed path expressions need the document's prefix map
+        return ['text', 'path', 'lxml', 'et', 'res']
     return [k for k in SOURCE_KINDS if not (case['prefix_dependent'] and k in ET_KINDS)]
 
 
